@@ -273,6 +273,8 @@ def run_task(args):
             run_machine(mod, task, col, sseed, tier)
         elif task.kind == 'enum':
             for i, case in enumerate(mod.ENUMS[task.name](tier)):
+                if col.classes.get('hang', 0) >= 3:
+                    break       # every hang costs a whole watchdog period: three are a verdict, the rest would only exhaust the wall budget
                 if i % task.shards == shard:
                     col.run_case(case)
         elif task.kind == 'custom':
